@@ -469,9 +469,14 @@ class NDNApp:
         name = Name.normalize(name)
         del self._prefix_tree[name]
         try:
-            await self.express_interest(make_command('rib', 'unregister', self.face, name=name), lifetime=1000)
-            return True
+            _, _, reply = await self.express_interest(
+                make_command('rib', 'unregister', self.face, name=name), lifetime=1000)
+            ret = parse_response(reply)
+            return ret['status_code'] == 200
         except (InterestNack, InterestTimeout, InterestCanceled, ValidationFailure):
+            return False
+        except (DecodeError, TypeError, ValueError, IndexError, struct.error):
+            # The reply is not a ControlResponse
             return False
 
     def set_interest_filter(self, name: NonStrictName, func: Route,
